@@ -27,7 +27,7 @@ func keys(x *mon.Ctx) {
 		isNm1 := len(b) == 32 && d.Cmp(nm1) == 0
 		var want ec.Point
 		if inRange || isNm1 {
-			want = refBase(d)
+			want = gTab.mulMemo(d)
 		}
 		in := append([]byte{}, b...)
 		// ecdh
@@ -83,7 +83,7 @@ func keys(x *mon.Ctx) {
 				case err != nil && ok:
 					c.Fail("reject", "sm2.NewPrivateKeyFromInt refused %x: %v", d, err)
 				case err == nil:
-					eqXY(c, fmt.Sprintf("sm2 public key (FromInt) of d=%x", d), sk.X, sk.Y, refBase(d))
+					eqXY(c, fmt.Sprintf("sm2 public key (FromInt) of d=%x", d), sk.X, sk.Y, gTab.mulMemo(d))
 				}
 			}
 		}
@@ -118,7 +118,7 @@ func keys(x *mon.Ctx) {
 		}
 	}
 	// 3. random keys
-	nr := x.Scale(1500, 40000)
+	nr := x.Scale(600, 40000)
 	for i := 0; i < nr; i++ {
 		c := x.Begin("private key constructors: random 32-byte string #%d", i)
 		if c == nil {
